@@ -1,12 +1,11 @@
 from .common import COMMON_ASSUME
 
 CFG = {
-    "claimed": False,  # model being updated to the fixed extract() (commit 44c69bc in /repo)
     "props_module": "RpmVerif.Props.C12",
-    "required_theorems": ["RpmVerif.C12.extract_benign", "RpmVerif.C12.extract_faithful_partial",
-                          "RpmVerif.C12.extract_contained", "RpmVerif.C12.extract_total_partial", "RpmVerif.C12.extract_log_sound",
-                          "RpmVerif.C12.hostile_dotdot_witness", "RpmVerif.C12.hostile_symlink_witness",
-                          "RpmVerif.C12.hostile_special_type_witness", "RpmVerif.C12.extract_hostile_false"],
+    "required_theorems": ["RpmVerif.C12.extract_hostile", "RpmVerif.C12.extract_hostile_wf", "RpmVerif.C12.extract_benign",
+                          "RpmVerif.C12.extract_faithful", "RpmVerif.C12.extract_total", "RpmVerif.C12.extract_log_sound",
+                          "RpmVerif.C12.regress_dotdot", "RpmVerif.C12.regress_symlink", "RpmVerif.C12.regress_symlink_chmod",
+                          "RpmVerif.C12.regress_symlink_same", "RpmVerif.C12.regress_special_type"],
     "trivial_branches": ["parse-err"],
     "rule": "every case = one package extracted by the real Package::extract inside a chroot jail with decoys outside /target "
             "(snapshot of the whole jail before/after). Cases: the corpus witnesses, ~75 hand-encoded hostile packages covering every family of the "
@@ -26,13 +25,15 @@ CFG = {
                      "the extraction runs as root with umask 022 (permission bits never make a call fail); names < 256 bytes, paths < 4096 bytes",
                      "Model/PkgFiles.lean (get_file_entries / get_file_paths / cpio reader) decodes the package for the driver; exercised on every case"],
     "assumptions": COMMON_ASSUME + ["kernel path resolution is modelled, not verified (DESIGN §6 C12: partial by nature)"],
-    "level_text": "Theorems for all package views, destinations and file systems of any size: a benign (built) package extracted into a vacant destination "
-                  "ends with ok, changes nothing outside it and leaves every directory / file / link entry at destination+path with exactly its permission bits, "
-                  "content and link target (extract_benign); no panic when only the three supported file types occur "
-                  "(extract_total_partial); nothing outside the destination is created, modified or removed, and every change is logged below it, whenever "
-                  "no path has a '..' component and no entry's followed path is at or below an earlier link entry (extract_contained). The full-strength "
-                  "hostile-package clause is proved FALSE of today's code by three concrete witnesses (hostile_*_witness, extract_hostile_false) which are "
-                  "replayed on the real code in a chroot jail (corpus/C12). The FS model is tied to the code by the differential run: status, the set of "
-                  "paths changed outside the destination and the full listing of the destination tree must be textually equal.",
-    "level_note": "Known defects of /repo (dotdot-escape, symlink-follow-escape, special-type-panic) are reported as fails:<class>; a proposed repair is in the C12 build report.",
+    "level_text": "Theorems for all package views, destinations and file systems of any size, about the code after the fix 44c69bc: "
+                  "(extract_hostile) for EVERY package view - '..' components, absolute/empty names, duplicates, links followed by entries at or below "
+                  "them, special file types, errors in the middle - extraction into a clean destination never panics, ends ok or err, and creates, modifies "
+                  "or removes nothing outside the destination, every logged path being below it (extract_hostile_wf: the same for any tree-shaped file system "
+                  "with no assumption on the destination); (extract_benign) a benign (built) package extracted into a vacant destination ends ok, is contained "
+                  "and leaves every directory / file / link entry at destination+path with exactly its permission bits, content and link target; "
+                  "(extract_total) no run panics; (extract_log_sound) the model's log accounts for every change. The former counterexamples are regression "
+                  "theorems (regress_*) and corpus cases replayed on the real code in a chroot jail. The FS model is tied to the code by the differential run: "
+                  "status, the set of paths changed outside the destination and the full listing of the destination tree must be textually equal.",
+    "level_note": "Trusted: Lean kernel; the modelled POSIX / std semantics (validated by the jail snapshots on every case); the package decoder Model/PkgFiles.lean. "
+                  "A regression of the fix is reported as fails:dotdot-escape / symlink-follow-escape / special-type-panic / unfaithful with a replay.",
 }
